@@ -58,6 +58,7 @@ func c01ReqType(cpt string) rules.RequestType {
 }
 
 func c01RealGen(r *rng, n int, w *bufio.Writer) {
+	bReseed(r)
 	list, err := os.ReadFile(c01RepoDir() + "/testdata/easylist.txt")
 	if err != nil {
 		fmt.Fprintf(w, "assert x = T ## testdata/easylist.txt not available: %v\n", err)
